@@ -1849,16 +1849,21 @@ theorem ex_runKeyword_none {env : Env} {impl : FmtImpl} {d : Draft} {k : Str} {v
   exact ex_nothing
 
 /-- what the induction provides about one schema object `kvs`: the recursive call is right on
-    every well-shaped proper subschema, and on the schemas `{"type": [t]}` that `disallow`
+    every well-shaped subschema found under a member (the value itself, an element of an array
+    value, a member of an object value), and on the schemas `{"type": [t]}` that draft 3 `disallow`
     synthesises -/
 structure Ctx (d : Draft) (rec : Rec) (sub : Json → Json → Bool) (shp : Json → Bool)
     (kvs : List (Str × Json)) : Prop where
-  hrec : ∀ s', shp s' = true → Rest d s' → s'.size < (Json.obj kvs).size →
-    ∀ i', WF i' = true → Ok (rec i' s') (sub s' i')
-  hsyn : ∀ dv, (k!"disallow", dv) ∈ kvs → ∀ ts, ensureList dv = some ts → ∀ t ∈ ts,
+  hv : ∀ k v, (k, v) ∈ kvs → shp v = true → ∀ i', WF i' = true → Ok (rec i' v) (sub v i')
+  helem : ∀ k ss, (k, Json.arr ss) ∈ kvs → ∀ s ∈ ss, shp s = true →
+    ∀ i', WF i' = true → Ok (rec i' s) (sub s i')
+  hval : ∀ k ps, (k, Json.obj ps) ∈ kvs → ∀ p ∈ ps, shp p.2 = true →
+    ∀ i', WF i' = true → Ok (rec i' p.2) (sub p.2 i')
+  hsyn : d = .d3 → ∀ dv, (k!"disallow", dv) ∈ kvs → ∀ ts, ensureList dv = some ts → ∀ t ∈ ts,
     ∀ i', WF i' = true → Ok (rec i' (.obj [(skey "type", .arr [t])])) (tyval d sub i' t)
   /-- drafts 6, 7: the boolean schemas -/
-  hbool : (d = .d6 ∨ d = .d7) → ∀ b i', Ok (rec i' (.bool b)) (sub (.bool b) i')
+  hbool : ∀ k v, (k, v) ∈ kvs → (d = .d6 ∨ d = .d7) →
+    ∀ b i', Ok (rec i' (.bool b)) (sub (.bool b) i')
   shape : ∀ kv ∈ kvs, shapeClause d shp kv = true
   /-- draft 3: `required` inside a well-shaped property schema is a boolean -/
   req3 : d = .d3 → ∀ pk, shp (.obj pk) = true → ∀ r, lookupJ "required" pk = some r → isBoolV r = true
@@ -1870,20 +1875,17 @@ variable {d : Draft} {shp : Json → Bool} {kvs : List (Str × Json)}
 
 theorem sub_v (C : Ctx d rec sub shp kvs) {k : Str} {v : Json} (hmem : (k, v) ∈ kvs)
     (hs : shp v = true) (i' : Json) (hi' : WF i' = true) : Ok (rec i' v) (sub v i') :=
-  C.hrec v hs (C.rest.obj_mem hmem) (by have := size_lt_of_mem_obj hmem; omega) i' hi'
+  C.hv k v hmem hs i' hi'
 
 theorem sub_elem (C : Ctx d rec sub shp kvs) {k : Str} {ss : List Json} (hmem : (k, .arr ss) ∈ kvs)
     {s : Json} (hs : s ∈ ss) (hshp : shp s = true) (i' : Json) (hi' : WF i' = true) :
     Ok (rec i' s) (sub s i') :=
-  C.hrec s hshp ((C.rest.obj_mem hmem).arr_mem hs)
-    (by have := size_lt_of_mem_obj hmem; have := size_lt_of_mem_arr hs; omega) i' hi'
+  C.helem k ss hmem s hs hshp i' hi'
 
 theorem sub_val (C : Ctx d rec sub shp kvs) {k : Str} {ps : List (Str × Json)}
     (hmem : (k, .obj ps) ∈ kvs) {p : Str × Json} (hp : p ∈ ps) (hshp : shp p.2 = true)
     (i' : Json) (hi' : WF i' = true) : Ok (rec i' p.2) (sub p.2 i') :=
-  C.hrec p.2 hshp ((C.rest.obj_mem hmem).obj_mem (k := p.1) hp)
-    (by have := size_lt_of_mem_obj hmem; have := size_lt_of_mem_obj (k := p.1) (v := p.2) hp; omega)
-    i' hi'
+  C.hval k ps hmem p hp hshp i' hi'
 
 theorem wf_v (C : Ctx d rec sub shp kvs) {k : Str} {v : Json} (hmem : (k, v) ∈ kvs) : WF v = true :=
   (C.rest.obj_mem hmem).wf
@@ -1981,11 +1983,11 @@ theorem key_disallow (C : Ctx d rec sub shp kvs) (v i : Json) (hmem : (k!"disall
     | str t =>
       refine (ex_runKeyword (f := .disallow_draft3) rfl
         (ex_kwDisallowDraft3 (sub := sub) .d3 (.str t) i [.str t] rfl
-          (fun t' ht' => C.hsyn _ hmem _ rfl t' ht' i hi))).congr (Bool.and_true _)
+          (fun t' ht' => C.hsyn rfl _ hmem _ rfl t' ht' i hi))).congr (Bool.and_true _)
     | arr ts =>
       refine (ex_runKeyword (f := .disallow_draft3) rfl
         (ex_kwDisallowDraft3 (sub := sub) .d3 (.arr ts) i ts rfl
-          (fun t' ht' => C.hsyn _ hmem _ rfl t' ht' i hi))).congr ?_
+          (fun t' ht' => C.hsyn rfl _ hmem _ rfl t' ht' i hi))).congr ?_
       exact congrArg ts.all (funext fun t => by cases t <;> rfl)
     | _ => cases (hsh : false = true)
   all_goals exact (ex_runKeyword_none rfl).congr (by cases i <;> rfl)
@@ -2530,5 +2532,736 @@ theorem key_uniqueItems (C : Ctx d rec sub shp kvs) (v i : Json)
     | _ => exact ex_runKeyword (f := .uniqueItems) rfl ex_nothing (applyKw_uniqueItems_non (by rfl))
 
 end Keys
+
+section Keys
+variable {env : Env} {impl : FmtImpl} {d : Draft} {rec : Rec} {sub : Json → Json → Bool}
+  {shp : Json → Bool} {kvs : List (Str × Json)}
+
+theorem key_items (C : Ctx d rec sub shp kvs) (v i : Json) (hmem : (k!"items", v) ∈ kvs)
+    (hi : WF i = true) :
+    Ex (runKeyword env impl (d.cfg none) rec i (.obj kvs) (k!"items", v))
+      (clause env d sub kvs i (k!"items", v)) := by
+  have hsh := C.shape _ hmem
+  cases i with
+  | arr xs =>
+    have hx := WF_arr hi
+    cases d
+    case d3 =>
+      cases v with
+      | arr ss =>
+        exact ex_runKeyword' (f := .items_draft3_draft4) rfl (ex_kwItems34_arr _ ss xs
+          (fun s hs x hx' => C.sub_elem hmem hs (List.all_eq_true.mp hsh s hs) x (hx x hx')))
+      | obj o =>
+        exact ex_runKeyword' (f := .items_draft3_draft4) rfl (ex_kwItems34_one _ _ xs rfl
+          (fun x hx' => C.sub_v hmem hsh x (hx x hx')))
+      | _ => cases (hsh : false = true)
+    case d4 =>
+      cases v with
+      | arr ss =>
+        exact ex_runKeyword' (f := .items_draft3_draft4) rfl (ex_kwItems34_arr _ ss xs
+          (fun s hs x hx' => C.sub_elem hmem hs (List.all_eq_true.mp hsh s hs) x (hx x hx')))
+      | obj o =>
+        exact ex_runKeyword' (f := .items_draft3_draft4) rfl (ex_kwItems34_one _ _ xs rfl
+          (fun x hx' => C.sub_v hmem hsh x (hx x hx')))
+      | _ => cases (hsh : false = true)
+    case d6 =>
+      cases v with
+      | arr ss =>
+        exact ex_runKeyword' (f := .items) rfl (ex_kwItems_arr _ ss xs
+          (fun s hs x hx' => C.sub_elem hmem hs (List.all_eq_true.mp hsh s hs) x (hx x hx')))
+      | obj o =>
+        exact ex_runKeyword' (f := .items) rfl (ex_kwItems_one _ _ xs rfl
+          (fun x hx' => C.sub_v hmem hsh x (hx x hx')))
+      | bool b =>
+        exact ex_runKeyword' (f := .items) rfl (ex_kwItems_one _ _ xs rfl
+          (fun x _ => C.hbool _ _ hmem (Or.inl rfl) b x))
+      | _ => cases (hsh : false = true)
+    case d7 =>
+      cases v with
+      | arr ss =>
+        exact ex_runKeyword' (f := .items) rfl (ex_kwItems_arr _ ss xs
+          (fun s hs x hx' => C.sub_elem hmem hs (List.all_eq_true.mp hsh s hs) x (hx x hx')))
+      | obj o =>
+        exact ex_runKeyword' (f := .items) rfl (ex_kwItems_one _ _ xs rfl
+          (fun x hx' => C.sub_v hmem hsh x (hx x hx')))
+      | bool b =>
+        exact ex_runKeyword' (f := .items) rfl (ex_kwItems_one _ _ xs rfl
+          (fun x _ => C.hbool _ _ hmem (Or.inr rfl) b x))
+      | _ => cases (hsh : false = true)
+  | _ =>
+    cases d
+    case d3 => exact ex_runKeyword (f := .items_draft3_draft4) rfl ex_nothing (applyKw_items34_non (by rfl))
+    case d4 => exact ex_runKeyword (f := .items_draft3_draft4) rfl ex_nothing (applyKw_items34_non (by rfl))
+    all_goals exact ex_runKeyword (f := .items) rfl ex_nothing (applyKw_items_non (by rfl))
+
+theorem key_additionalItems (C : Ctx d rec sub shp kvs) (v i : Json)
+    (hmem : (k!"additionalItems", v) ∈ kvs) (hi : WF i = true) :
+    Ex (runKeyword env impl (d.cfg none) rec i (.obj kvs) (k!"additionalItems", v))
+      (clause env d sub kvs i (k!"additionalItems", v)) := by
+  have hsh := C.shape _ hmem
+  cases i with
+  | arr xs =>
+    have hx := WF_arr hi
+    cases d
+    all_goals
+      refine ex_runKeyword' (f := .additionalItems) rfl (ex_kwAdditionalItems _ kvs v xs ?_)
+      cases v with
+      | bool b => exact Or.inl ⟨b, rfl⟩
+      | obj o => exact Or.inr ⟨rfl, fun x hx' => C.sub_v hmem hsh x (hx x hx')⟩
+      | _ => cases (hsh : false = true)
+  | _ =>
+    cases d <;>
+      exact ex_runKeyword (f := .additionalItems) rfl ex_nothing (applyKw_additionalItems_non (by rfl))
+
+theorem key_contains (C : Ctx d rec sub shp kvs) (v i : Json)
+    (hmem : (k!"contains", v) ∈ kvs) (hi : WF i = true) :
+    Ex (runKeyword env impl (d.cfg none) rec i (.obj kvs) (k!"contains", v))
+      (clause env d sub kvs i (k!"contains", v)) := by
+  have hsh := C.shape _ hmem
+  cases d
+  case d3 => exact (ex_runKeyword_none rfl).congr (by cases i <;> rfl)
+  case d4 => exact (ex_runKeyword_none rfl).congr (by cases i <;> rfl)
+  all_goals
+    cases i with
+    | arr xs =>
+      exact ex_runKeyword' (f := .contains) rfl (ex_kwContains _ v xs
+        (fun x hx' => C.sub_v hmem hsh x (WF_arr hi x hx')))
+    | _ => exact ex_runKeyword (f := .contains) rfl ex_nothing (applyKw_contains_non (by rfl))
+
+theorem key_propertyNames (C : Ctx d rec sub shp kvs) (v i : Json)
+    (hmem : (k!"propertyNames", v) ∈ kvs) :
+    Ex (runKeyword env impl (d.cfg none) rec i (.obj kvs) (k!"propertyNames", v))
+      (clause env d sub kvs i (k!"propertyNames", v)) := by
+  have hsh := C.shape _ hmem
+  cases d
+  case d3 => exact (ex_runKeyword_none rfl).congr (by cases i <;> rfl)
+  case d4 => exact (ex_runKeyword_none rfl).congr (by cases i <;> rfl)
+  all_goals
+    cases i with
+    | obj ms =>
+      exact ex_runKeyword' (f := .propertyNames) rfl (ex_kwPropertyNames _ v ms
+        (fun m _ => C.sub_v hmem hsh (.str m.1) rfl))
+    | _ => exact ex_runKeyword (f := .propertyNames) rfl ex_nothing (applyKw_propertyNames_non (by rfl))
+
+/-- the members of `properties`/`patternProperties` -/
+theorem props_elems (C : Ctx d rec sub shp kvs) {k : Str} {ps ms : List (Str × Json)}
+    (hmem : (k, .obj ps) ∈ kvs)
+    (hsh : ps.all (fun p => ((d = .d6 || d = .d7) || p.2.isObj) && shp p.2) = true)
+    (hi : WF (.obj ms) = true) :
+    ∀ p ∈ ps, ∀ m ∈ ms, Ok (rec m.2 p.2) (sub p.2 m.2) := by
+  intro p hp m hm
+  have h1 := List.all_eq_true.mp hsh p hp
+  rw [Bool.and_eq_true] at h1
+  exact C.sub_val hmem hp h1.2 m.2 ((WF_obj hi).2 m hm)
+
+theorem key_properties (C : Ctx d rec sub shp kvs) (v i : Json)
+    (hmem : (k!"properties", v) ∈ kvs) (hi : WF i = true) :
+    Ex (runKeyword env impl (d.cfg none) rec i (.obj kvs) (k!"properties", v))
+      (clause env d sub kvs i (k!"properties", v)) := by
+  have hsh := C.shape _ hmem
+  have hwv := C.wf_v hmem
+  cases i with
+  | obj ms =>
+    cases d
+    case d3 =>
+      cases v with
+      | obj ps =>
+        refine ex_runKeyword' (f := .properties_draft3) rfl (ex_kwPropertiesDraft3 _ _ ps ms
+          (WF_obj hwv).1 (WF_obj hi).1 (props_elems C hmem hsh hi) (fun p hp => ?_))
+        have h1 := List.all_eq_true.mp hsh p hp
+        rw [Bool.and_eq_true] at h1
+        obtain ⟨pk, hpk⟩ : ∃ pk, p.2 = .obj pk := by
+          have := h1.1
+          cases hp2 : p.2 with
+          | obj pk => exact ⟨pk, rfl⟩
+          | _ => rw [hp2] at this; cases this
+        refine ⟨pk, hpk, fun r hr => C.req3 rfl pk ?_ r hr⟩
+        rw [← hpk]; exact h1.2
+      | _ => cases (hsh : false = true)
+    all_goals
+      cases v with
+      | obj ps =>
+        exact (ex_runKeyword' (f := .properties) rfl (ex_kwProperties _ ps ms
+          (WF_obj hwv).1 (WF_obj hi).1 (props_elems C hmem hsh hi))).congr (Bool.and_true _).symm
+      | _ => cases (hsh : false = true)
+  | _ =>
+    cases d
+    case d3 => exact ex_runKeyword (f := .properties_draft3) rfl ex_nothing (applyKw_properties3_non (by rfl))
+    all_goals exact ex_runKeyword (f := .properties) rfl ex_nothing (applyKw_properties_non (by rfl))
+
+theorem key_patternProperties (hre : RegexTotal env) (C : Ctx d rec sub shp kvs) (v i : Json)
+    (hmem : (k!"patternProperties", v) ∈ kvs) (hi : WF i = true) :
+    Ex (runKeyword env impl (d.cfg none) rec i (.obj kvs) (k!"patternProperties", v))
+      (clause env d sub kvs i (k!"patternProperties", v)) := by
+  have hsh := C.shape _ hmem
+  cases i with
+  | obj ms =>
+    cases d
+    all_goals
+      cases v with
+      | obj ps =>
+        exact ex_runKeyword' (f := .patternProperties) rfl (ex_kwPatternProperties env hre _ ps ms
+          (props_elems C hmem hsh hi))
+      | _ => cases (hsh : false = true)
+  | _ =>
+    cases d <;> exact ex_runKeyword (f := .patternProperties) rfl ex_nothing
+      (applyKw_patternProperties_non (by rfl))
+
+theorem key_additionalProperties (hre : RegexTotal env) (hset : SetOrderOk env)
+    (C : Ctx d rec sub shp kvs) (v i : Json)
+    (hmem : (k!"additionalProperties", v) ∈ kvs) (hi : WF i = true) :
+    Ex (runKeyword env impl (d.cfg none) rec i (.obj kvs) (k!"additionalProperties", v))
+      (clause env d sub kvs i (k!"additionalProperties", v)) := by
+  have hsh := C.shape _ hmem
+  have hprops : ∀ x, lookupJ "properties" kvs = some x → x.isObj = true := by
+    intro x hx
+    have := C.shape_lookup hx
+    rw [ks_properties] at this
+    cases d <;> cases x <;> first | rfl | cases (this : false = true)
+  have hpats : ∀ x, lookupJ "patternProperties" kvs = some x → x.isObj = true := by
+    intro x hx
+    have := C.shape_lookup hx
+    rw [ks_patternProperties] at this
+    cases d <;> cases x <;> first | rfl | cases (this : false = true)
+  cases i with
+  | obj ms =>
+    cases d
+    all_goals
+      refine ex_runKeyword' (f := .additionalProperties) rfl
+        (ex_kwAdditionalProperties env hre hset _ kvs v ms (WF_obj hi).1 hprops hpats ?_)
+      cases v with
+      | bool b => exact Or.inl ⟨b, rfl⟩
+      | obj o => exact Or.inr ⟨rfl, fun m hm => C.sub_v hmem hsh m.2 ((WF_obj hi).2 m hm)⟩
+      | _ => cases (hsh : false = true)
+  | _ =>
+    cases d <;> exact ex_runKeyword (f := .additionalProperties) rfl ex_nothing
+      (applyKw_additionalProperties_non (by rfl))
+
+theorem key_required (C : Ctx d rec sub shp kvs) (v i : Json)
+    (hmem : (k!"required", v) ∈ kvs) :
+    Ex (runKeyword env impl (d.cfg none) rec i (.obj kvs) (k!"required", v))
+      (clause env d sub kvs i (k!"required", v)) := by
+  have hsh := C.shape _ hmem
+  cases d
+  case d3 => exact (ex_runKeyword_none rfl).congr (by cases i <;> rfl)
+  all_goals
+    cases i with
+    | obj ms =>
+      cases v with
+      | arr rs =>
+        exact ex_runKeyword' (f := .required) rfl (ex_kwRequired _ rs ms (List.all_eq_true.mp hsh))
+      | _ => cases (hsh : false = true)
+    | _ => exact ex_runKeyword (f := .required) rfl ex_nothing (applyKw_required_non (by rfl))
+
+theorem key_dependencies (C : Ctx d rec sub shp kvs) (v i : Json)
+    (hmem : (k!"dependencies", v) ∈ kvs) (hi : WF i = true) :
+    Ex (runKeyword env impl (d.cfg none) rec i (.obj kvs) (k!"dependencies", v))
+      (clause env d sub kvs i (k!"dependencies", v)) := by
+  have hsh := C.shape _ hmem
+  cases i with
+  | obj ms =>
+    cases d
+    case d3 =>
+      cases v with
+      | obj ds =>
+        refine ex_runKeyword' (f := .dependencies_draft3) rfl
+          (ex_kwDependenciesDraft3 _ rfl ds ms (fun dp hdp => ?_))
+        have h1 := List.all_eq_true.mp hsh dp hdp
+        obtain ⟨dk, dv⟩ := dp
+        cases dv with
+        | arr names => exact Or.inl ⟨names, rfl, List.all_eq_true.mp h1⟩
+        | str r => exact Or.inr (Or.inl ⟨r, rfl⟩)
+        | obj o => exact Or.inr (Or.inr ⟨rfl, C.sub_val hmem hdp h1 _ hi⟩)
+        | _ => cases (h1 : false = true)
+      | _ => cases (hsh : false = true)
+    case d4 =>
+      cases v with
+      | obj ds =>
+        refine ex_runKeyword' (f := .dependencies) rfl (ex_kwDependencies _ ds ms (fun dp hdp => ?_))
+        have h1 := List.all_eq_true.mp hsh dp hdp
+        obtain ⟨dk, dv⟩ := dp
+        cases dv with
+        | arr names => exact Or.inl ⟨names, rfl, List.all_eq_true.mp h1⟩
+        | obj o => exact Or.inr ⟨rfl, rfl, C.sub_val hmem hdp h1 _ hi⟩
+        | _ => cases (h1 : false = true)
+      | _ => cases (hsh : false = true)
+    case d6 =>
+      cases v with
+      | obj ds =>
+        refine ex_runKeyword' (f := .dependencies) rfl (ex_kwDependencies _ ds ms (fun dp hdp => ?_))
+        have h1 := List.all_eq_true.mp hsh dp hdp
+        obtain ⟨dk, dv⟩ := dp
+        cases dv with
+        | arr names => exact Or.inl ⟨names, rfl, List.all_eq_true.mp h1⟩
+        | obj o => exact Or.inr ⟨rfl, rfl, C.sub_val hmem hdp h1 _ hi⟩
+        | bool b => exact Or.inr ⟨rfl, rfl, C.hbool _ _ hmem (Or.inl rfl) b _⟩
+        | _ => cases (h1 : false = true)
+      | _ => cases (hsh : false = true)
+    case d7 =>
+      cases v with
+      | obj ds =>
+        refine ex_runKeyword' (f := .dependencies) rfl (ex_kwDependencies _ ds ms (fun dp hdp => ?_))
+        have h1 := List.all_eq_true.mp hsh dp hdp
+        obtain ⟨dk, dv⟩ := dp
+        cases dv with
+        | arr names => exact Or.inl ⟨names, rfl, List.all_eq_true.mp h1⟩
+        | obj o => exact Or.inr ⟨rfl, rfl, C.sub_val hmem hdp h1 _ hi⟩
+        | bool b => exact Or.inr ⟨rfl, rfl, C.hbool _ _ hmem (Or.inr rfl) b _⟩
+        | _ => cases (h1 : false = true)
+      | _ => cases (hsh : false = true)
+  | _ =>
+    cases d
+    case d3 => exact ex_runKeyword (f := .dependencies_draft3) rfl ex_nothing (applyKw_dependencies3_non (by rfl))
+    all_goals exact ex_runKeyword (f := .dependencies) rfl ex_nothing (applyKw_dependencies_non (by rfl))
+
+theorem key_ref (C : Ctx d rec sub shp kvs) (v : Json) (hmem : (k!"$ref", v) ∈ kvs) : False := by
+  have := C.noref
+  unfold lookupJ at this
+  rw [ks_ref] at this
+  exact lookup_none_iff.mp this v hmem
+
+end Keys
+
+/-! ### the dispatcher: every member of a schema object -/
+
+set_option linter.unusedSimpArgs false in
+/-- a key that no draft and no clause of the specification knows: nothing on both sides -/
+theorem key_default (env : Env) (d : Draft) (sub : Json → Json → Bool) (kvs : List (Str × Json))
+    (i : Json) (k : Str) (v : Json)
+    (h0 : k ≠ k!"type")
+    (h1 : k ≠ k!"disallow")
+    (h2 : k ≠ k!"extends")
+    (h3 : k ≠ k!"enum")
+    (h4 : k ≠ k!"const")
+    (h5 : k ≠ k!"allOf")
+    (h6 : k ≠ k!"anyOf")
+    (h7 : k ≠ k!"oneOf")
+    (h8 : k ≠ k!"not")
+    (h9 : k ≠ k!"if")
+    (h10 : k ≠ k!"then")
+    (h11 : k ≠ k!"else")
+    (h12 : k ≠ k!"format")
+    (h13 : k ≠ k!"minimum")
+    (h14 : k ≠ k!"maximum")
+    (h15 : k ≠ k!"exclusiveMinimum")
+    (h16 : k ≠ k!"exclusiveMaximum")
+    (h17 : k ≠ k!"multipleOf")
+    (h18 : k ≠ k!"divisibleBy")
+    (h19 : k ≠ k!"minLength")
+    (h20 : k ≠ k!"maxLength")
+    (h21 : k ≠ k!"minItems")
+    (h22 : k ≠ k!"maxItems")
+    (h23 : k ≠ k!"minProperties")
+    (h24 : k ≠ k!"maxProperties")
+    (h25 : k ≠ k!"pattern")
+    (h26 : k ≠ k!"uniqueItems")
+    (h27 : k ≠ k!"items")
+    (h28 : k ≠ k!"additionalItems")
+    (h29 : k ≠ k!"contains")
+    (h30 : k ≠ k!"propertyNames")
+    (h31 : k ≠ k!"properties")
+    (h32 : k ≠ k!"patternProperties")
+    (h33 : k ≠ k!"additionalProperties")
+    (h34 : k ≠ k!"required")
+    (h35 : k ≠ k!"dependencies")
+    (h36 : k ≠ k!"$ref")
+    : lookupS k (kwTable d) = none ∧ clause env d sub kvs i (k, v) = true := by
+  have g0 := Ne.symm h0
+  have g1 := Ne.symm h1
+  have g2 := Ne.symm h2
+  have g3 := Ne.symm h3
+  have g4 := Ne.symm h4
+  have g5 := Ne.symm h5
+  have g6 := Ne.symm h6
+  have g7 := Ne.symm h7
+  have g8 := Ne.symm h8
+  have g9 := Ne.symm h9
+  have g10 := Ne.symm h10
+  have g11 := Ne.symm h11
+  have g12 := Ne.symm h12
+  have g13 := Ne.symm h13
+  have g14 := Ne.symm h14
+  have g15 := Ne.symm h15
+  have g16 := Ne.symm h16
+  have g17 := Ne.symm h17
+  have g18 := Ne.symm h18
+  have g19 := Ne.symm h19
+  have g20 := Ne.symm h20
+  have g21 := Ne.symm h21
+  have g22 := Ne.symm h22
+  have g23 := Ne.symm h23
+  have g24 := Ne.symm h24
+  have g25 := Ne.symm h25
+  have g26 := Ne.symm h26
+  have g27 := Ne.symm h27
+  have g28 := Ne.symm h28
+  have g29 := Ne.symm h29
+  have g30 := Ne.symm h30
+  have g31 := Ne.symm h31
+  have g32 := Ne.symm h32
+  have g33 := Ne.symm h33
+  have g34 := Ne.symm h34
+  have g35 := Ne.symm h35
+  have g36 := Ne.symm h36
+  constructor
+  · cases d <;> simp only [kwTable, lookupS, g0, g1, g2, g3, g4, g5, g6, g7, g8, g9, g10, g11, g12, g13, g14, g15, g16, g17, g18, g19, g20, g21, g22, g23, g24, g25, g26, g27, g28, g29, g30, g31, g32, g33, g34, g35, g36, if_false]
+  · unfold clause
+    simp only [h0, h1, h2, h3, h4, h5, h6, h7, h8, h9, h10, h11, h12, h13, h14, h15, h16, h17, h18, h19, h20, h21, h22, h23, h24, h25, h26, h27, h28, h29, h30, h31, h32, h33, h34, h35, h36, false_and, if_false]
+    cases i <;> simp only [clTyped, clNum, clStr, clArr, clObj, h0, h1, h2, h3, h4, h5, h6, h7, h8, h9, h10, h11, h12, h13, h14, h15, h16, h17, h18, h19, h20, h21, h22, h23, h24, h25, h26, h27, h28, h29, h30, h31, h32, h33, h34, h35, h36, false_and, or_self, if_false]
+
+theorem runKeyword_ex {env : Env} {impl : FmtImpl} {d : Draft} {rec : Rec} {sub : Json → Json → Bool}
+    {shp : Json → Bool} {kvs : List (Str × Json)} (hre : RegexTotal env) (hset : SetOrderOk env)
+    (C : Ctx d rec sub shp kvs) (k : Str) (v i : Json) (hmem : (k, v) ∈ kvs) (hi : WF i = true) :
+    Ex (runKeyword env impl (d.cfg none) rec i (.obj kvs) (k, v)) (clause env d sub kvs i (k, v)) := by
+  by_cases h0 : k = k!"type"
+  · subst h0; exact key_type C v i hmem hi
+  by_cases h1 : k = k!"disallow"
+  · subst h1; exact key_disallow C v i hmem hi
+  by_cases h2 : k = k!"extends"
+  · subst h2; exact key_extends C v i hmem hi
+  by_cases h3 : k = k!"enum"
+  · subst h3; exact key_enum C v i hmem hi
+  by_cases h4 : k = k!"const"
+  · subst h4; exact key_const C v i hmem hi
+  by_cases h5 : k = k!"allOf"
+  · subst h5; exact key_allOf C v i hmem hi
+  by_cases h6 : k = k!"anyOf"
+  · subst h6; exact key_anyOf C v i hmem hi
+  by_cases h7 : k = k!"oneOf"
+  · subst h7; exact key_oneOf C v i hmem hi
+  by_cases h8 : k = k!"not"
+  · subst h8; exact key_not C v i hmem hi
+  by_cases h9 : k = k!"if"
+  · subst h9; exact key_if C v i hmem hi
+  by_cases h10 : k = k!"then"
+  · subst h10; exact key_then v i
+  by_cases h11 : k = k!"else"
+  · subst h11; exact key_else v i
+  by_cases h12 : k = k!"format"
+  · subst h12; exact key_format v i
+  by_cases h13 : k = k!"minimum"
+  · subst h13; exact key_minimum C v i hmem
+  by_cases h14 : k = k!"maximum"
+  · subst h14; exact key_maximum C v i hmem
+  by_cases h15 : k = k!"exclusiveMinimum"
+  · subst h15; exact key_exclusiveMinimum C v i hmem
+  by_cases h16 : k = k!"exclusiveMaximum"
+  · subst h16; exact key_exclusiveMaximum C v i hmem
+  by_cases h17 : k = k!"multipleOf"
+  · subst h17; exact key_multipleOf C v i hmem
+  by_cases h18 : k = k!"divisibleBy"
+  · subst h18; exact key_divisibleBy C v i hmem
+  by_cases h19 : k = k!"minLength"
+  · subst h19; exact key_minLength C v i hmem
+  by_cases h20 : k = k!"maxLength"
+  · subst h20; exact key_maxLength C v i hmem
+  by_cases h21 : k = k!"minItems"
+  · subst h21; exact key_minItems C v i hmem
+  by_cases h22 : k = k!"maxItems"
+  · subst h22; exact key_maxItems C v i hmem
+  by_cases h23 : k = k!"minProperties"
+  · subst h23; exact key_minProperties C v i hmem
+  by_cases h24 : k = k!"maxProperties"
+  · subst h24; exact key_maxProperties C v i hmem
+  by_cases h25 : k = k!"pattern"
+  · subst h25; exact key_pattern hre C v i hmem
+  by_cases h26 : k = k!"uniqueItems"
+  · subst h26; exact key_uniqueItems C v i hmem hi
+  by_cases h27 : k = k!"items"
+  · subst h27; exact key_items C v i hmem hi
+  by_cases h28 : k = k!"additionalItems"
+  · subst h28; exact key_additionalItems C v i hmem hi
+  by_cases h29 : k = k!"contains"
+  · subst h29; exact key_contains C v i hmem hi
+  by_cases h30 : k = k!"propertyNames"
+  · subst h30; exact key_propertyNames C v i hmem
+  by_cases h31 : k = k!"properties"
+  · subst h31; exact key_properties C v i hmem hi
+  by_cases h32 : k = k!"patternProperties"
+  · subst h32; exact key_patternProperties hre C v i hmem hi
+  by_cases h33 : k = k!"additionalProperties"
+  · subst h33; exact key_additionalProperties hre hset C v i hmem hi
+  by_cases h34 : k = k!"required"
+  · subst h34; exact key_required C v i hmem
+  by_cases h35 : k = k!"dependencies"
+  · subst h35; exact key_dependencies C v i hmem hi
+  by_cases h36 : k = k!"$ref"
+  · subst h36; exact (key_ref C v hmem).elim
+  obtain ⟨h1, h2⟩ := key_default env d sub kvs i k v h0 h1 h2 h3 h4 h5 h6 h7 h8 h9 h10 h11 h12 h13 h14 h15 h16 h17 h18 h19 h20 h21 h22 h23 h24 h25 h26 h27 h28 h29 h30 h31 h32 h33 h34 h35 h36
+  rw [h2]
+  exact ex_runKeyword_none h1
+
+/-! ### one layer of the evaluator -/
+
+theorem idKey_eq (d : Draft) :
+    (d.cfg none).idKey = ks (if (d = .d6 || d = .d7) then "$id" else "id") := by
+  cases d <;> rfl
+
+theorem scopeOf_ok (d : Draft) (kvs : List (Str × Json))
+    (h : (match lookupJ (if (d = .d6 || d = .d7) then "$id" else "id") kvs with
+          | some v => isStrJ v | none => true) = true) :
+    ∃ sc, scopeOf (d.cfg none) kvs = .ok sc := by
+  unfold scopeOf
+  rw [idKey_eq]
+  unfold lookupJ at h
+  cases hl : Json.lookup (ks (if (d = .d6 || d = .d7) = true then "$id" else "id")) kvs with
+  | none => exact ⟨_, rfl⟩
+  | some v =>
+    rw [hl] at h
+    cases v <;> first | exact ⟨_, rfl⟩ | cases h
+
+theorem evalStep_obj_ex {env : Env} {impl : FmtImpl} {d : Draft} {rec : Rec}
+    {sub : Json → Json → Bool} {shp : Json → Bool} {kvs : List (Str × Json)}
+    (hre : RegexTotal env) (hurl : UrlTotal env) (hset : SetOrderOk env)
+    (C : Ctx d rec sub shp kvs)
+    (hid : (match lookupJ (if (d = .d6 || d = .d7) then "$id" else "id") kvs with
+          | some v => isStrJ v | none => true) = true)
+    (i : Json) (hi : WF i = true) :
+    Ex (evalStep env impl (d.cfg none) rec i (.obj kvs)) (kvs.all (clause env d sub kvs i)) := by
+  obtain ⟨sc, hsc⟩ := scopeOf_ok d kvs hid
+  unfold evalStep
+  dsimp only
+  rw [hsc]
+  dsimp only
+  refine ex_withScopeOpt env hurl sc ?_
+  unfold schemaBody
+  have hnr : Json.lookup (skey "$ref") kvs = none := C.noref
+  rw [hnr]
+  dsimp only
+  exact ex_seqG _ _ _ (fun kv hkv => runKeyword_ex hre hset C kv.1 kv.2 i hkv hi)
+
+theorem size_pos (s : Json) : 0 < s.size := by
+  cases s <;> simp [Json.size]
+
+/-- the shape of a schema object, unfolded -/
+theorem shaped_obj {d : Draft} {m : Nat} {kvs : List (Str × Json)}
+    (h : shapedN false d m (.obj kvs) = true) :
+    ∃ m', m = m' + 1
+      ∧ (match lookupJ (if (d = .d6 || d = .d7) then "$id" else "id") kvs with
+          | some v => isStrJ v | none => true) = true
+      ∧ lookupJ "$ref" kvs = none
+      ∧ ∀ kv ∈ kvs, shapeClause d (shapedN false d m') kv = true := by
+  cases m with
+  | zero => cases h
+  | succ m' =>
+    rw [shapedN_succ_obj, Bool.and_eq_true] at h
+    refine ⟨m', rfl, h.1, ?_⟩
+    have h2 := h.2
+    cases hl : lookupJ "$ref" kvs with
+    | some r => rw [hl] at h2; cases h2
+    | none =>
+      rw [hl] at h2
+      exact ⟨rfl, List.all_eq_true.mp h2⟩
+
+theorem size_synth (t : Json) : (Json.obj [(skey "type", .arr [t])]).size = t.size + 3 := by
+  simp [Json.size, Json.size.sizeKvs, Json.size.sizeList]
+  omega
+
+theorem ensureList_mem {dv : Json} {ts : List Json} (h : ensureList dv = some ts) {t : Json}
+    (ht : t ∈ ts) : (t = dv ∧ ∃ n, dv = .str n) ∨ dv = .arr ts := by
+  cases dv <;> simp [ensureList] at h
+  · subst h
+    rw [List.mem_singleton] at ht
+    exact Or.inl ⟨ht, _, rfl⟩
+  · subst h; exact Or.inr rfl
+
+/-- **the exhaustive run agrees with the specification**, for every depth bound above the
+    schema's size and every fuel at least the schema's size -/
+theorem eval_ok (env : Env) (hre : RegexTotal env) (hurl : UrlTotal env) (hset : SetOrderOk env)
+    (impl : FmtImpl) (d : Draft) :
+    ∀ (N : Nat) (s : Json), s.size ≤ N → ∀ m, shapedN false d m s = true → Rest d s →
+      ∀ n fuel, s.size < n → s.size ≤ fuel → ∀ i, WF i = true →
+        Ok (eval env impl (d.cfg none) fuel i s) (validN env d n s i) := by
+  intro N
+  induction N with
+  | zero => intro s hs; have := size_pos s; omega
+  | succ N ih =>
+    intro s hs m hshape hrest n fuel hn hfuel i hi
+    refine ok_of_ex (prefixLaw_eval env impl _ fuel i s) ?_
+    obtain ⟨n', rfl⟩ := Nat.exists_eq_succ_of_ne_zero (by omega : n ≠ 0)
+    obtain ⟨f, rfl⟩ := Nat.exists_eq_succ_of_ne_zero (by have := size_pos s; omega : fuel ≠ 0)
+    cases s with
+    | bool b =>
+      cases b
+      · exact ex_emit_one _
+      · exact ex_nothing
+    | obj kvs =>
+      obtain ⟨m', rfl, hid, hnoref, hsh⟩ := shaped_obj hshape
+      rw [validN_succ_obj]
+      show Ex (evalStep env impl (d.cfg none) (eval env impl (d.cfg none) f) i (.obj kvs)) _
+      -- the recursive call on a shaped schema smaller than this one
+      have hsub : ∀ s', shapedN false d m' s' = true → Rest d s' → s'.size < (Json.obj kvs).size →
+          ∀ i', WF i' = true → Ok (eval env impl (d.cfg none) f i' s') (validN env d n' s' i') :=
+        fun s' hs' hr' hlt i' hi' =>
+          ih s' (by omega) m' hs' hr' n' f (by omega) (by omega) i' hi'
+      refine evalStep_obj_ex (shp := shapedN false d m') hre hurl hset ?_ hid i hi
+      refine
+        { hv := fun k v hmem hs' i' hi' =>
+            hsub v hs' (hrest.obj_mem hmem) (by have := size_lt_of_mem_obj hmem; omega) i' hi'
+          helem := fun k ss hmem s' hs' hshp i' hi' =>
+            hsub s' hshp ((hrest.obj_mem hmem).arr_mem hs')
+              (by have := size_lt_of_mem_obj hmem; have := size_lt_of_mem_arr hs'; omega) i' hi'
+          hval := fun k ps hmem p hp hshp i' hi' =>
+            hsub p.2 hshp ((hrest.obj_mem hmem).obj_mem (k := p.1) hp)
+              (by have := size_lt_of_mem_obj hmem
+                  have := size_lt_of_mem_obj (k := p.1) (v := p.2) hp; omega) i' hi'
+          hsyn := ?_
+          hbool := ?_
+          shape := hsh
+          req3 := ?_
+          rest := hrest
+          noref := hnoref }
+      · -- the schemas synthesised by `disallow`
+        intro hd dv hmem ts hts t ht i' hi'
+        subst hd
+        have hszdv := size_lt_of_mem_obj hmem
+        have hshdv := hsh _ hmem
+        have htk := hrest.tk_member hmem
+        rw [tkMember_disallow] at htk
+        -- one more layer of fuel
+        have hf : f ≠ 0 := by have := size_pos dv; omega
+        obtain ⟨f', rfl⟩ := Nat.exists_eq_succ_of_ne_zero hf
+        refine ok_of_ex (prefixLaw_eval env impl _ _ i' _) ?_
+        show Ex (evalStep env impl (Draft.d3.cfg none) (eval env impl (Draft.d3.cfg none) f') i' _) _
+        -- what `t` is
+        have ht' : (∃ nm, t = .str nm ∧ (typeNames .d3).contains nm = true)
+            ∨ (t.isObj = true ∧ shapedN false .d3 m' t = true ∧ Rest .d3 t
+                ∧ t.size + 3 ≤ (Json.obj kvs).size) := by
+          rcases ensureList_mem hts ht with ⟨rfl, nm, hnm⟩ | rfl
+          · subst hnm; exact Or.inl ⟨nm, rfl, htk⟩
+          · have h1 := List.all_eq_true.mp hshdv t ht
+            have h2 := List.all_eq_true.mp htk t ht
+            have hsz := size_lt_of_mem_arr ht
+            cases t with
+            | str nm => exact Or.inl ⟨nm, rfl, h2⟩
+            | obj o =>
+              exact Or.inr ⟨rfl, h1, (hrest.obj_mem hmem).arr_mem ht, by omega⟩
+            | _ => cases h1
+        have hval : tyval .d3 (validN env .d3 n') i' t
+            = [(skey "type", Json.arr [t])].all
+                (clause env .d3 (validN env .d3 n') [(skey "type", Json.arr [t])] i') := by
+          rw [List.all_cons, List.all_nil, Bool.and_true, show skey "type" = k!"type" from ks_type]
+          exact (Bool.or_false _).symm
+        rw [hval]
+        refine evalStep_obj_ex (shp := shapedN false .d3 m') hre hurl hset ?_ rfl i' hi'
+        have hmem1 : ∀ {k : Str} {v : Json}, (k, v) ∈ [(skey "type", Json.arr [t])] →
+            k = k!"type" ∧ v = .arr [t] := by
+          intro k v h
+          rw [List.mem_singleton] at h
+          cases h
+          exact ⟨ks_type, rfl⟩
+        refine
+          { hv := fun k v hm hs' => ?_
+            helem := fun k ss hm s' hs' hshp i'' hi'' => ?_
+            hval := fun k ps hm => ?_
+            hsyn := fun _ dv' hm => ?_
+            hbool := fun _ _ _ h => by rcases h with h | h <;> cases h
+            shape := fun kv hkv => ?_
+            req3 := ?_
+            rest := ?_
+            noref := rfl }
+        · obtain ⟨_, rfl⟩ := hmem1 hm; cases m' <;> cases hs'
+        · obtain ⟨_, h2⟩ := hmem1 hm
+          cases h2
+          rw [List.mem_singleton] at hs'
+          subst hs'
+          rcases ht' with ⟨nm, rfl, _⟩ | ⟨_, h1, h2, h3⟩
+          · cases m' <;> cases hshp
+          · exact ih s' (by omega) m' h1 h2 n' f' (by omega) (by omega) i'' hi''
+        · obtain ⟨_, h2⟩ := hmem1 hm; cases h2
+        · obtain ⟨h1, _⟩ := hmem1 hm; exact absurd h1 (by decide)
+        · obtain ⟨k, v⟩ := kv
+          obtain ⟨rfl, rfl⟩ := hmem1 hkv
+          show ([t].all (fun t => match t with
+            | .str _ => true | .obj _ => shapedN false .d3 m' t | _ => false)) = true
+          rw [List.all_cons, List.all_nil, Bool.and_true]
+          rcases ht' with ⟨nm, rfl, _⟩ | ⟨h0, h1, _, _⟩
+          · rfl
+          · cases t <;> first | exact h1 | cases h0
+        · -- `required` inside well-shaped property schemas
+          intro _ pk hpk r hr
+          obtain ⟨m'', rfl, _, _, hall⟩ := shaped_obj hpk
+          have := hall _ (lookup_mem hr)
+          rw [ks_required] at this
+          exact this
+        · -- the hereditary part for the synthesised schema
+          have hrt : Rest .d3 t := by
+            rcases ht' with ⟨nm, rfl, _⟩ | ⟨_, _, h2, _⟩
+            · exact Rest.leaf _ _ rfl rfl
+            · exact h2
+          refine ⟨?_, ?_, ?_⟩
+          · simp [WF, keysDistinct, WFKvs, WFList, hrt.wf]
+          · simp [numSafe, numSafe.numSafeKvs, numSafe.numSafeList, hrt.ns]
+            rw [show skey "type" = k!"type" from ks_type, ks_multipleOf, ks_divisibleBy]
+            decide
+          · simp only [typesKnown, typesKnown.typesKnownKvs, typesKnown.typesKnownList, hrt.tk,
+              Bool.and_true]
+            rw [if_pos (show skey "type" = ks "type" ∨ skey "type" = ks "disallow" from Or.inl rfl)]
+            rcases ht' with ⟨nm, rfl, h⟩ | ⟨h0, _, _, _⟩
+            · simpa using h
+            · cases t <;> first | rfl | cases h0
+      · -- boolean schemas (drafts 6, 7)
+        intro k v hmem hd b i'
+        have hf : f ≠ 0 := by
+          have := size_lt_of_mem_obj hmem; have := size_pos v; omega
+        have hn' : n' ≠ 0 := by
+          have := size_lt_of_mem_obj hmem; have := size_pos v; omega
+        obtain ⟨f', rfl⟩ := Nat.exists_eq_succ_of_ne_zero hf
+        obtain ⟨n'', rfl⟩ := Nat.exists_eq_succ_of_ne_zero hn'
+        refine ok_of_ex (prefixLaw_eval env impl _ _ i' _) ?_
+        cases b
+        · exact ex_emit_one _
+        · exact ex_nothing
+      · -- `required` inside well-shaped property schemas
+        intro _ pk hpk r hr
+        obtain ⟨m'', rfl, _, _, hall⟩ := shaped_obj hpk
+        have := hall _ (lookup_mem hr)
+        rw [ks_required] at this
+        subst_vars
+        exact this
+    | null => cases m <;> cases hshape
+    | num _ => cases m <;> cases hshape
+    | str _ => cases m <;> cases hshape
+    | arr _ => cases m <;> cases hshape
+
+/-! ### the entry points -/
+
+theorem verdict_of_ex {g : Gen} {v : Bool} (L : PrefixLaw g) (h : Ex g v) (st : RState) :
+    (((g (some 1) st).errs = [] ∧ (g (some 1) st).stop = .done) ↔ v = true)
+    ∧ ((g (some 1) st).stop = .done ∨ (g (some 1) st).stop = .budget) := by
+  obtain ⟨hd, he⟩ := h st
+  cases hes : (g none st).errs with
+  | nil =>
+    have h1 := L.short st 1 (by rw [hes]; exact Nat.zero_lt_one)
+    rw [hes] at he
+    rw [h1, hd, hes, ← he]
+    exact ⟨⟨fun _ => rfl, fun _ => ⟨rfl, rfl⟩⟩, Or.inl rfl⟩
+  | cons e es =>
+    obtain ⟨h1, h2⟩ := L.long st 1 Nat.zero_lt_one (by rw [hes]; simp)
+    rw [hes] at he h1
+    rw [h1, h2, ← he]
+    simp
+
+theorem errs_of_ex {g : Gen} {v : Bool} (h : Ex g v) (st : RState) :
+    ((g none st).errs = [] ↔ v = true) ∧ (g none st).stop = .done := by
+  obtain ⟨hd, he⟩ := h st
+  refine ⟨?_, hd⟩
+  rw [← he, List.isEmpty_iff]
+
+theorem isValid_of_ex {g : Gen} {v : Bool} (L : PrefixLaw g) (h : Ex g v) (st : RState) :
+    (isValid g st).1 = .ok v := by
+  obtain ⟨hd, he⟩ := h st
+  rw [L.isValid_spec st, hd, ← he]
+  cases (g none st).errs <;> rfl
+
+/-- the model agrees with `Spec.valid` on the domain of C01 -/
+theorem eval_valid (env : Env) (hre : RegexTotal env) (hurl : UrlTotal env) (hset : SetOrderOk env)
+    (impl : FmtImpl) (d : Draft) (s i : Json)
+    (hs : shaped d s = true) (hws : WF s = true) (hwi : WF i = true)
+    (hnum : numSafe s = true) (hty : typesKnown d s = true)
+    (fuel : Nat) (hfuel : s.size ≤ fuel) :
+    Ex (eval env impl (d.cfg none) fuel i s) (valid env d s i) :=
+  (eval_ok env hre hurl hset impl d s.size s (Nat.le_refl _) (s.size + 1) hs ⟨hws, hnum, hty⟩
+    (s.size + 1) fuel (Nat.lt_succ_self _) hfuel i hwi).1
 
 end JS
